@@ -247,6 +247,75 @@ def target_c(gate):
 
 
 TARGETS = {"a": target_a, "b": target_b, "c": target_c}
+GEN_CHAINS = {}
+
+
+def make_script(ir):
+    """Render a generated racing script (with / for / try-finally over gates) to a function; returns its name.
+    Every with item gets its own manager number; the chains of items enclosing each gate are recorded."""
+    import json as _json
+    key = "gen:" + _json.dumps(ir, sort_keys=True)
+    if key in TARGETS:
+        return key
+    lines = ["def target(gate):", "    FR.append(sys._getframe())"]
+    chains = [()]
+    ctr = {"m": 0, "g": 0}
+
+    def block(stmts, ind, enclosing):
+        if not stmts:
+            lines.append("    " * ind + "pass")
+        for st in stmts:
+            t = st["t"]
+            if t == "gate":
+                ctr["g"] += 1
+                lines.append("    " * ind + "gate('g%d')" % ctr["g"])
+                chains.append(tuple(enclosing))
+            elif t == "with":
+                ks = []
+                for _ in range(st["n"]):
+                    ctr["m"] += 1
+                    ks.append(ctr["m"])
+                lines.append("    " * ind + "with " + ", ".join("M(%d)" % k for k in ks) + ":")
+                # while the items are being entered one by one, every prefix is a real state
+                for i in range(1, len(ks)):
+                    chains.append(tuple(enclosing) + tuple(ks[:i]))
+                block(st["body"], ind + 1, list(enclosing) + ks)
+            elif t == "for":
+                lines.append("    " * ind + "for _i in range(2):")
+                block(st["body"], ind + 1, enclosing)
+            elif t == "try":
+                lines.append("    " * ind + "try:")
+                block(st["body"], ind + 1, enclosing)
+                lines.append("    " * ind + "finally:")
+                block(st["final"], ind + 1, enclosing)
+            else:
+                raise AssertionError(t)
+
+    block(ir, 1, [])
+    lines.append("    gate('end')")
+    src = "\n".join(lines) + "\n"
+    ns = {"FR": FR, "sys": sys, "M": M}
+    exec(compile(src, "<c07-script>", "exec"), ns)
+    TARGETS[key] = ns["target"]
+    GEN_CHAINS[key] = chains
+    return key
+
+
+def consistent_gen(ctxs, chains):
+    ks = []
+    for i, c in enumerate(ctxs):
+        if c.is_exiting and i == len(ctxs) - 1:
+            continue
+        m = c.obj
+        if not isinstance(m, M):
+            return "obj is %r" % (m,)
+        if c.start_line != m.line:
+            return "context at line %r holds the manager created at line %r" % (c.start_line, m.line)
+        ks.append(m.k)
+    ks = tuple(ks)
+    if not any(ks == ch[:len(ks)] for ch in chains):
+        return "not a nesting of with blocks that is ever active at one instruction: %r" % (list(ks),)
+    return None
 
 
 def runner(fn, gate):
@@ -315,6 +384,12 @@ def consistent(ctxs):
 CHAINS = [(1, 2, 3), (1, 10, 20), (10, 20), (1, 2)]
 
 
+def _consistent_for(script, ctxs):
+    if script in GEN_CHAINS:
+        return consistent_gen(ctxs, GEN_CHAINS[script])
+    return consistent(ctxs)
+
+
 def one(script, nadv, jstar, k, api, new_thread=False):
     import stackscope._verif as V
     g, t = start(script, nadv)
@@ -380,11 +455,11 @@ def one(script, nadv, jstar, k, api, new_thread=False):
                 problem = "reported a frame that does not belong to the target thread: %s" % f.funcname
         fs = [f for f in st.frames if f.pyframe is frame]
         if fs and problem is None and not warned:
-            problem = consistent(fs[0].contexts)
+            problem = _consistent_for(script, fs[0].contexts)
         if api == "thread" and st.error is not None and problem is None:
             problem = "Stack.error: %r" % (st.error,)
     elif out.get("ctxs") is not None and not warned:
-        problem = consistent(out["ctxs"])
+        problem = _consistent_for(script, out["ctxs"])
     if "decoy" in extra:
         dg, dt = extra["decoy"]
         dg.go.release()
@@ -405,6 +480,8 @@ def run_race(req):
     obs = []
     stats = {"schedules": 0, "moved": 0, "rejected_or_warned": 0, "left_frame": 0, "new_thread": 0, "hook_points": 0}
     for (script, api, nadv) in req["cells"]:
+        if isinstance(script, list):
+            script = make_script(script)
         try:
             base = one(script, nadv, -1, 0, api)
         except RuntimeError as ex:
